@@ -580,11 +580,16 @@ def extra(tier, seed, stats):
         for k, p, _lab in cards[:2]:
             nf = mgeom.n_facets(k, p)
             for with_trcl in (False, True):
-                for idx, must_convert in ((nf, True), (nf + 1, False)):
+                trials = [(nf, True, -1), (nf + 1, False, -1),
+                          (nf + 1, False, 1)]
+                # further beyond: two too many, and the largest single digit
+                trials += [(i_, False, -1) for i_ in sorted({nf + 2, 9})
+                           if nf + 1 < i_ <= 9]
+                for idx, must_convert, sense in trials:
                     d = md.new_deck()
                     d['surfaces'] = [md.surf(1, k, p), md.surf(2, 'so', [60.0])]
                     inner = md.cell(1, 0, None,
-                                    md.AND(md.F(-1, idx), md.S(-2)),
+                                    md.AND(md.F(sense, idx), md.S(-2)),
                                     imp={'n': 1})
                     if with_trcl:
                         inner['trcl'] = {'inline': md.trspec(
